@@ -60,7 +60,19 @@ func newProdHooks(tag string) (*prodHooks, error) {
 		b, _ := io.ReadAll(r.Body)
 		p.mu.Lock()
 		p.got[r.URL.Path] = append(p.got[r.URL.Path], parseEventJSON(b))
+		nth := len(p.got[r.URL.Path])
 		p.mu.Unlock()
+		// every fourth request to the healthy first webhook: the receiver has read (and recorded) the event and its
+		// connection — a keep-alive connection reused from earlier deliveries — is cut before any answer. The service books
+		// a failed delivery; the event must not be sent a second time (one ADD per stored header and channel)
+		if strings.HasPrefix(r.URL.Path, "/first") && nth%4 == 3 {
+			if hj, ok := w.(http.Hijacker); ok {
+				if conn, _, err := hj.Hijack(); err == nil {
+					_ = conn.Close()
+					return
+				}
+			}
+		}
 		if strings.HasPrefix(r.URL.Path, "/silent") {
 			select {
 			case <-p.release:
